@@ -114,3 +114,105 @@ func callsIn(f *ssa.Function, fn func(ssa.CallInstruction)) {
 }
 
 func ssautilAll(prog *ssa.Program) map[*ssa.Function]bool { return ssautil.AllFunctions(prog) }
+
+// ---- parameters resolved at call sites ----
+
+type callIndex struct {
+	sites map[*ssa.Function][]ssa.CallInstruction
+	taken map[*ssa.Function]bool // used as a value somewhere: callers cannot be enumerated
+}
+
+var callIdxCache = map[*Ctx]*callIndex{}
+
+func (c *Ctx) callIndex() *callIndex {
+	if ci, ok := callIdxCache[c]; ok {
+		return ci
+	}
+	idx := &callIndex{sites: map[*ssa.Function][]ssa.CallInstruction{}, taken: map[*ssa.Function]bool{}}
+	for _, g := range c.L.RepoFuncs() {
+		for _, b := range g.Blocks {
+			for _, in := range b.Instrs {
+				var callee *ssa.Function
+				if ci, ok := in.(ssa.CallInstruction); ok {
+					callee = ci.Common().StaticCallee()
+					if callee != nil && !ci.Common().IsInvoke() {
+						idx.sites[callee] = append(idx.sites[callee], ci)
+					}
+				}
+				for _, op := range in.Operands(nil) {
+					if op == nil || *op == nil {
+						continue
+					}
+					if fn, ok := (*op).(*ssa.Function); ok && fn != callee {
+						idx.taken[fn] = true
+					}
+					if mc, ok := (*op).(*ssa.MakeClosure); ok {
+						_ = mc
+					}
+				}
+			}
+		}
+	}
+	callIdxCache[c] = idx
+	return idx
+}
+
+// boundArgs: the arguments every call site in the repository passes for parameter prm of an
+// unexported, never address-taken function; nil when the callers cannot be enumerated.
+func (c *Ctx) boundArgs(prm *ssa.Parameter) []ssa.Value {
+	f := prm.Parent()
+	if f == nil || f.Parent() != nil {
+		return nil
+	}
+	idx := c.callIndex()
+	if idx.taken[f] || len(idx.sites[f]) == 0 {
+		return nil
+	}
+	if obj := f.Object(); obj != nil && obj.Exported() && pkgRel(f) != "main" {
+		// exported: callers outside the loaded packages cannot exist for this module's internal
+		// packages, but keep to the conservative reading for pkg/
+		if strings.HasPrefix(pkgRel(f), "pkg/") {
+			return nil
+		}
+	}
+	pi := -1
+	for i, p := range f.Params {
+		if p == prm {
+			pi = i
+		}
+	}
+	if pi < 0 {
+		return nil
+	}
+	var out []ssa.Value
+	for _, ci := range idx.sites[f] {
+		args := ci.Common().Args
+		if pi >= len(args) {
+			return nil
+		}
+		out = append(out, args[pi])
+	}
+	return out
+}
+
+// holdsThroughParams: pred holds for v, or v is a parameter and pred holds (recursively, two
+// levels) for what every call site passes for it.
+func (c *Ctx) holdsThroughParams(v ssa.Value, pred func(ssa.Value) bool, depth int) bool {
+	if pred(v) {
+		return true
+	}
+	prm, ok := v.(*ssa.Parameter)
+	if !ok || depth >= 2 {
+		return false
+	}
+	args := c.boundArgs(prm)
+	if len(args) == 0 {
+		return false
+	}
+	for _, a := range args {
+		if !c.holdsThroughParams(a, pred, depth+1) {
+			return false
+		}
+	}
+	return true
+}
